@@ -115,6 +115,13 @@ class G:
                 return A(r.choice(self.real_2d), self.idx(), self.idx())
             return A(r.choice(self.real_arr), self.idx())
         x = r.random()
+        if self.o.get("same_operands") and x < 0.08:
+            # both operands are the same sub-expression (structurally equal
+            # siblings): (a - b) - (a - b), a * b / (a * b)
+            import copy
+            e = B(r.choice(["+", "-", "*"]), self.rexpr(d + 1),
+                  self.rexpr(d + 1))
+            return B(r.choice(["-", "-", "+", "*"]), e, copy.deepcopy(e))
         if x < 0.55:
             op = r.choice(["+", "-", "*", "+", "-"])
             return B(op, self.rexpr(d + 1), self.rexpr(d + 1))
@@ -363,11 +370,18 @@ class G:
             lo, hi, st = I(r.randint(1, 3)), I(r.randint(0, 4)), None
             room = None
         saved = set(self.defined)
+        cname = None
+        if self.o.get("named") and r.random() < 0.5:
+            cname = "lp_" + var
+        self.loop_names = getattr(self, "loop_names", []) + [cname]
         self.active_loops.append((var, lo, room))
         body = self.block(depth + 1, r.randint(1, 3), in_loop=True)
         self.active_loops.pop()
+        self.loop_names = self.loop_names[:-1]
         # definitions made inside a possibly zero-trip loop do not count
         self.defined = saved
+        if cname:
+            return ["do", var, lo, hi, st, body, cname]
         return ["do", var, lo, hi, st, body]
 
     def if_stmt(self, depth):
@@ -410,8 +424,11 @@ class G:
                 out.append(["verb", "write(*,'(A)') 'marker %d'" %
                             r.randint(0, 99)])
             elif self.o["exitcycle"] and in_loop and x < 0.72:
-                out.append(["if", [[self.lexpr(1),
-                                    [[r.choice(["exit", "cycle"])]]]], None])
+                verb = [r.choice(["exit", "cycle"])]
+                names = [c for c in getattr(self, "loop_names", []) if c]
+                if names and r.random() < 0.7:
+                    verb.append(r.choice(names))
+                out.append(["if", [[self.lexpr(1), [verb]]], None])
             else:
                 out.append(self.scalar_assign())
         return out
